@@ -409,6 +409,17 @@ def rf16f(run):
         if moved:
             continue
         run.ob(rule, ('contiguous', i), True)
+        # X = X + E counts as the increment E
+        class _Inc(dict):
+            pass
+        for var, body, lst in (('section_size', b1, inc1), ('addr', b2, inc2)):
+            for x in F.walk(body):
+                if x['k'] == 'BinaryOperator' and x['op'] == '=' and F.src(F.strip(x['c'][0])) == var:
+                    r = F.strip(x['c'][1])
+                    if r['k'] == 'BinaryOperator' and r['op'] == '+' and F.src(F.strip(r['c'][0])) == var:
+                        y = _Inc(x)
+                        y['c'] = [x['c'][0], r['c'][1]]
+                        lst.append(y)
         if len(inc1) != 1 or len(inc2) != 1:
             run.ob(rule, ('size', i), False)
             run.analysis_broken(rule, 'branch %d: size increment / address advance not recognised' % i)
